@@ -431,6 +431,16 @@ def gen_c16(rng, tier):
         steps += [st('batch') for _ in b + c]
         steps += [st('sleep', ms=11 + rng.below(4)), st('release'), st('sleep', ms=14 + rng.below(15)), st('end')]
         cases.append(c16_case(f'race2-{i}', batches, steps, family='race'))
+    # (a3) two slow sends in a row: an ack is being sent while batch A is rejected and a tick passes (so
+    #      the ticker branch may pick A up), then A's report is slow while B is rejected and C accepted
+    for i in range(40 * scale):
+        batches = [(1 + rng.below(4), 'o'), (1 + rng.below(6), 'p')] + [(1 + rng.below(6), 'p') for _ in range(1 + rng.below(2))] + \
+                  [(1 + rng.below(6), 'o') for _ in range(1 + rng.below(2))]
+        nb_c = len(batches) - 2
+        steps = [st('hold', k=0), st('hold', k=1), st('batch'), st('waitsend', k=0), st('batch'), st('sleep', ms=11 + rng.below(5)),
+                 st('release1', k=0), st('waitsend', k=1)] + [st('batch') for _ in range(nb_c)] + \
+                [st('sleep', ms=11 + rng.below(4)), st('release'), st('sleep', ms=14 + rng.below(15)), st('end')]
+        cases.append(c16_case(f'race3-{i}', batches, steps, family='race'))
     # (b) random scripts
     for i in range(150 * scale):
         nb = 1 + rng.below(8)
